@@ -331,4 +331,48 @@ def firstOnPathF (fs : FS) (fault : Fault) (key : Key) : List Entry → Found
       | none => firstOnPathF fs fault key rest
       | some f => .file fp name f
 
+/-! ### a file rewritten in place while it is being read (content new / time old)
+
+  `directory()` (and a callable that stats after `open`) remembers the modification time it saw
+  right after `open`; if the file is rewritten *in place* after that and before the template
+  class reads it, the template is parsed from the new content but remembered with the old time.
+  Modelled as: the load runs over a file system in which the file it opens first has the new
+  content and still the old time; afterwards the file has the new content and a new time. -/
+
+/-- the (normalised) file a load opens first; `none`: answered from the cache, or nothing opened -/
+def wouldOpen (cfg : Cfg) (fs : FS) (s : LState) (r : Req) : Option Str :=
+  let key := resolve cfg.path.isEmpty r
+  let hit := alookup key s.cache.items
+  if hit.isSome && (!cfg.autoReload || stillCurrent fs s key) then none else
+  match searchPath cfg r key with
+  | none => none
+  | some (entries, _) =>
+    match firstOnPathF fs r.fault key entries with
+    | .file fp _ _ => some (normpath fp)
+    | _ => none
+
+inductive HOpW where
+  | plain (op : HOp)
+  | loadRewrite (r : Req) (content : Nat) (bad : Bool)
+  deriving DecidableEq, Repr
+
+def hstepW (cfg : Cfg) (w : World) : HOpW → World × Option Res
+  | .plain op => hstep cfg w op
+  | .loadRewrite r c b =>
+    match wouldOpen cfg w.fs w.ls r with
+    | none => hstep cfg w (.load r)                   -- no file is opened: nothing to rewrite
+    | some p =>
+      match w.fs p with
+      | none => hstep cfg w (.load r)
+      | some f =>
+        let (ls', res) := load cfg (fsSet w.fs p (some ⟨c, b, f.mtime⟩)) w.ls r
+        ({ fs := fsSet w.fs p (some ⟨c, b, w.clock⟩), clock := w.clock + 1, ls := ls' }, some res)
+
+def hrunW (cfg : Cfg) (w : World) : List HOpW → World × List (Option Res)
+  | [] => (w, [])
+  | op :: ops =>
+    let (w1, o) := hstepW cfg w op
+    let (w2, os) := hrunW cfg w1 ops
+    (w2, o :: os)
+
 end Genshi.LoaderP
